@@ -278,7 +278,7 @@ func checkGenerate(c *Ctx, m *gensignModel, h *types.Named, gen *ssa.Function) {
 						if strings.HasPrefix(o, "global:"+RepoMod) && !strings.HasSuffix(o, "DefaultKeyOpt") && !strings.Contains(o, "DefaultKeyOpt.") {
 							okFresh = false
 						}
-						if strings.HasPrefix(o, "p0.") && !strings.HasPrefix(o, "p0.agent") && !strings.HasPrefix(o, "p0.conf") {
+						if strings.HasPrefix(o, "p0.") && o != "p0.agent" && !strings.HasPrefix(o, "p0.agent.") && o != "p0.conf" && !strings.HasPrefix(o, "p0.conf.") {
 							okFresh = false // e.g. a cached key in a handler field
 						}
 					}
